@@ -308,6 +308,14 @@ pub struct PCase {
     pub dtr: f64,
     pub opt: Opt,
     pub pspec: bool,
+    /// 0: converged equilibrium at T'; 1: the unconverged pair `PhaseEquilibrium::new_npt(T, f p_sat)` at the
+    /// target temperature itself ("to generate initial guesses for an actual VLE solver", its doc comment);
+    /// 2: the converged equilibrium at T itself
+    #[serde(default)]
+    pub guess_kind: u8,
+    /// factor f of guess kind 1, in [1/3, 3]
+    #[serde(default)]
+    pub guess_f: f64,
 }
 
 fn decode_pure(g: &mut Gen) -> PCase {
@@ -315,7 +323,14 @@ fn decode_pure(g: &mut Gen) -> PCase {
     let lo = tr_min(&spec);
     let tr = g.range(lo, 0.99);
     let tr2 = (tr + g.range(-0.3, 0.3)).clamp(lo, 0.99);
-    PCase { spec, tr, dtr: tr2 - tr, opt: gen_opt(g), pspec: g.bool(0.4) }
+    let (opt, pspec) = (gen_opt(g), g.bool(0.4));
+    let guess_kind = match g.index(20) {
+        0..=13 => 0,
+        14..=18 => 1,
+        _ => 2,
+    };
+    let guess_f = if g.bool(0.5) { g.log_range(1.0 / 3.0, 3.0) } else { g.range(0.8, 1.25) };
+    PCase { spec, tr, dtr: if guess_kind == 0 { tr2 - tr } else { 0.0 }, opt, pspec, guess_kind, guess_f }
 }
 
 fn check_pure(case: &PCase, obs: &mut Obs) {
@@ -334,15 +349,35 @@ fn check_pure(case: &PCase, obs: &mut Obs) {
     let t = case.tr * c.t * KELVIN;
     let t2 = (case.tr + case.dtr) * c.t * KELVIN;
     let o = case.opt.solver();
+    obs.class(format!("guess kind {}", ["converged at T'", "new_npt pair at T (not an equilibrium)", "converged at T"][case.guess_kind.min(2) as usize]));
     // the guess: a converged equilibrium at T' (default options)
-    let Ok(guess) = Vle::pure(&model, t2, None, SolverOptions::default()) else {
+    let Ok(conv) = Vle::pure(&model, t2, None, SolverOptions::default()) else {
         obs.discard("no equilibrium at T' for the guess");
         return;
     };
-    if collapsed(&vle_vals(&guess)) {
+    if collapsed(&vle_vals(&conv)) {
         obs.discard("guess is a collapsed pair (C04 finding)");
         return;
     }
+    let guess = if case.guess_kind == 1 {
+        // two states at (T, f p_sat) that are not in equilibrium; admitted only if both phases exist there
+        // and lie within a factor 3 of the solution (the property's "guesses within a factor 3")
+        let vc = vle_vals(&conv);
+        let one = arr1(&[1.0]) * MOL;
+        let Ok(pair) = Vle::new_npt(&model, t, case.guess_f * conv.vapor().pressure(Contributions::Total), &one, &one) else {
+            obs.discard("no new_npt pair at f p_sat");
+            return;
+        };
+        let vq = vle_vals(&pair);
+        let within = |a: f64, b: f64| a / b < 3.0 && b / a < 3.0;
+        if !(within(vq.rho_v, vc.rho_v) && within(vq.rho_l, vc.rho_l) && vq.rho_l > 1.2 * vq.rho_v) {
+            obs.discard("new_npt pair not within a factor 3 of the solution (one branch missing at f p_sat)");
+            return;
+        }
+        pair
+    } else {
+        conv
+    };
     let (unguided, guided, what) = if case.pspec {
         // the pressure is the saturation pressure at T (from the unguided T-solve)
         let Ok(ut) = Vle::pure(&model, t, None, SolverOptions::default()) else {
@@ -1481,7 +1516,7 @@ fn check_line(case: &LCase, obs: &mut Obs) {
 }
 
 // ---------------------------------------------------------------------------------------
-const PURE: PartCfg = PartCfg { name: "pure-guess", genome_len: 16, cases_quick: 8000, cases_thorough: 600_000, panic: PanicPolicy::Count };
+const PURE: PartCfg = PartCfg { name: "pure-guess", genome_len: 20, cases_quick: 8000, cases_thorough: 600_000, panic: PanicPolicy::Count };
 const TWO: PartCfg = PartCfg { name: "state-two-roots", genome_len: 12, cases_quick: 6000, cases_thorough: 600_000, panic: PanicPolicy::Count };
 const STATE: PartCfg = PartCfg { name: "state-guess", genome_len: 32, cases_quick: 2500, cases_thorough: 250_000, panic: PanicPolicy::Count };
 const FLASH: PartCfg = PartCfg { name: "flash-guess", genome_len: 40, cases_quick: 2000, cases_thorough: 150_000, panic: PanicPolicy::Count };
@@ -1491,7 +1526,7 @@ const DBIN: PartCfg = PartCfg { name: "diagram-binary", genome_len: 32, cases_qu
 const LINES: PartCfg = PartCfg { name: "lines", genome_len: 32, cases_quick: 192, cases_thorough: 9_600, panic: PanicPolicy::Count };
 
 pub fn run(ctx: &Ctx) {
-    ctx.set_rule("All parts compare a guided call with the unguided / stand-alone call on the same input. pure-guess: C04 record pool x T/Tc in the success range x guess = converged equilibrium at T' with |T'-T| <= 0.3 Tc x options x T- or p-specification. state-guess: 1-2 hydrocarbon PC-SAFT components x T/Tc_max in [0.5,2] x target density (log-uniform 1e-4..0.1 and uniform 0.1..0.85 of rho_max) whose pressure has exactly one root on the isotherm (600-point scan) x guess factor in [1/3,3]: new_npt with InitialDensity/Vapor/Liquid vs None; pure components above p_c additionally new_nph/new_nps/new_nvu with initial_temperature and new_nts with InitialDensity. state-two-roots: pure records of parameters/pcsaft/gross2001, gross2002, gross2005_fit, gross2005_literature, gross2006 (133 records) x target = the root returned by new_npt(None): liquid targets at T/Tc in [0.5,0.94] (half in [0.86,0.94]), p = 1.02 p_sat + u (min(p_spinodal_vapour, 3 p_sat) - 1.02 p_sat), rho0/rho_liquid uniform in [0.6,1.3]; vapour targets at T/Tc in [0.5,0.945], p in [0.5,0.98] p_sat, rho0/rho_vapour log-uniform in [0.3,3], half of them in the corner T/Tc in [0.9,0.945], p >= 0.88 p_sat, rho0/rho_vapour in [2.4,3] from which the unstable region is reached; non-trivial there: rho0 mechanically unstable or more than 10 % off. flash-guess: 2-3 hydrocarbons (SMILES only C,H; non-polar, non-associating; Tc ratio < 1.8; k_ij in +-0.05) x T/Tc_low in [0.6,0.95] x p inside an envelope wider than 5 % x initial state = flash at (T(1+-3 %), p(1+-15 %)). bubble-dew-guess: tp_init = solution x [1/3,3], molefracs_init = solution x [1/3,3] renormalised; p-specification: two initial temperatures within +-10 %. diagram-pure: npoints 3-120, T_min/Tc in [0.3,0.9], max_iter 3-60; 25 % of the cases on records with known failing temperatures. diagram-binary: T/Tc_low in [0.6,1.25], npoints 3-40, options incl. outer max_iter 4-40, and the component-swapped model. lines: npoints 6-24, T_min/Tc_mix in [0.5,0.9]. Non-trivial: guess differs from the solution by > 10 %, or a diagram point with index >= 1 was compared. Distinct by hash of the canonical case.");
+    ctx.set_rule("All parts compare a guided call with the unguided / stand-alone call on the same input. pure-guess: C04 record pool x T/Tc in the success range x guess = converged equilibrium at T' with |T'-T| <= 0.3 Tc (70 %), the unconverged pair PhaseEquilibrium::new_npt(T, f p_sat) at the target temperature itself with f in [1/3,3] and both phases within a factor 3 of the solution (25 %), or the converged equilibrium at T (5 %) x options x T- or p-specification. state-guess: 1-2 hydrocarbon PC-SAFT components x T/Tc_max in [0.5,2] x target density (log-uniform 1e-4..0.1 and uniform 0.1..0.85 of rho_max) whose pressure has exactly one root on the isotherm (600-point scan) x guess factor in [1/3,3]: new_npt with InitialDensity/Vapor/Liquid vs None; pure components above p_c additionally new_nph/new_nps/new_nvu with initial_temperature and new_nts with InitialDensity. state-two-roots: pure records of parameters/pcsaft/gross2001, gross2002, gross2005_fit, gross2005_literature, gross2006 (133 records) x target = the root returned by new_npt(None): liquid targets at T/Tc in [0.5,0.94] (half in [0.86,0.94]), p = 1.02 p_sat + u (min(p_spinodal_vapour, 3 p_sat) - 1.02 p_sat), rho0/rho_liquid uniform in [0.6,1.3]; vapour targets at T/Tc in [0.5,0.945], p in [0.5,0.98] p_sat, rho0/rho_vapour log-uniform in [0.3,3], half of them in the corner T/Tc in [0.9,0.945], p >= 0.88 p_sat, rho0/rho_vapour in [2.4,3] from which the unstable region is reached; non-trivial there: rho0 mechanically unstable or more than 10 % off. flash-guess: 2-3 hydrocarbons (SMILES only C,H; non-polar, non-associating; Tc ratio < 1.8; k_ij in +-0.05) x T/Tc_low in [0.6,0.95] x p inside an envelope wider than 5 % x initial state = flash at (T(1+-3 %), p(1+-15 %)). bubble-dew-guess: tp_init = solution x [1/3,3], molefracs_init = solution x [1/3,3] renormalised; p-specification: two initial temperatures within +-10 %. diagram-pure: npoints 3-120, T_min/Tc in [0.3,0.9], max_iter 3-60; 25 % of the cases on records with known failing temperatures. diagram-binary: T/Tc_low in [0.6,1.25], npoints 3-40, options incl. outer max_iter 4-40, and the component-swapped model. lines: npoints 6-24, T_min/Tc_mix in [0.5,0.9]. Non-trivial: guess differs from the solution by > 10 %, or a diagram point with index >= 1 was compared. Distinct by hash of the canonical case.");
     ctx.assume("tolerances: 2e-7 relative on T, p and 2e-7 absolute on mole fractions for Newton-converged results (bubble/dew points, density and temperature iterations; >= 100 x their tolerances 1e-9..1e-10; measured worst 7.6e-9 in 1.3e6 cases); densities from new_nts 5e-7 and from new_nph/new_nps/new_nvu 2e-6 (Newton on T with atol 1e-8 K; measured 9e-9 resp. 6e-9); a phase density follows the pressure with kappa = p/(rho dp/drho), its tolerance is tol_p x max(1, kappa); saturation pressures of pure equilibria 1e-6 (pure_t/pure_p stop on the pressure/temperature update while the densities are one Newton step behind: C04 measured residuals up to 1e-8 with the default tolerance), x10 above 0.99 Tc, x max(1, 1e5 x tol option / 1e-6) for looser solver tolerances; tp_flash densities/compositions 1e-5 x max(1, tol/1e-8) (the flash stops on |d ln K| < 1e-8 with linearly converging successive substitution; phase fraction divided by max|y-x|); bubble/dew tolerances scale with max(1, 100 x outer tolerance option / 2e-7)");
     ctx.assume("mixtures: non-associating non-polar PC-SAFT records whose SMILES contains only C and H, T_c ratio < 1.8, |k_ij| <= 0.05, T = max(tr x lowest T_c, 0.5 x highest T_c) (below ~0.45 T_c the pure PC-SAFT models have spurious dense phases, i.e. liquid-liquid demixing of the model); line points above 0.95 T_c,mix are not compared (ill-conditioned, outside C05's domain); results with opposite density order (bubble/dew exchange) or on different branches of a closed / retrograde envelope are different equilibria of the same equations and are counted as inconclusive");
     ctx.assume("single-root situations for the state constructors are established by the harness (sign changes of p(rho) - p on a 600-point scan of the isotherm, and no approach of the loop to the target pressure closer than 5 % behind the first unstable point; p >= 1e-4 in reduced units because density_iteration resolves p to 1e-12 absolutely); new_nph/new_nps/new_nvu only for pure components at p > 1.05 p_c (h, s monotone in T, one density root for every T)");
